@@ -14,7 +14,8 @@ RULE = (
     "inputs are evaluated. Oracle on bins with K>q and S00>0: 0 <= asd_res <= asd_out(1+1e-6); static combination => "
     "asd_res <= 1e-5 asd_out; permutation / re-mix / analytic-vs-numeric differences <= 1e-5 asd_out (bins with "
     "K>=2q+2); q=1: SISO == MISO_numeric == MISO_analytic == sqrt(Gyy(1-coh)) within 1e-6 asd_out, including delayed "
-    "couplings. Non-trivial: q>=2 with a non-diagonal mix, or q=1 with d>=1 (complex coupling)."
+    "couplings. Inputs carry constant levels up to 30 rms; every comparison must exceed both the fixed tolerance and the rounding of "
+    "S00 - s^H A^-1 s (256 eps cond(A) S00 for the numeric, 4096 eps cond(A)^2 S00 for the closed-form solver). Non-trivial: q>=2 with a non-diagonal mix, or q=1 with d>=1 (complex coupling)."
 )
 ASSUMPTIONS = ["invariance tolerances 1e-5/1e-6 relative to the output ASD (calibrated: <=5e-8 on the pinned tree, i.e. sqrt of double-precision cancellation)"]
 SHARDS_QUICK = 4
